@@ -55,7 +55,23 @@ pub async fn make() {
         for c in t["cmds"].as_array().unwrap() {
             clock += 1000;
             verif_clock::set(clock);
+            // "fail": the append of this command fails (the journal path is a directory for the duration of the call)
+            let fail = c.get("fail").and_then(|v| v.as_bool()).unwrap_or(false);
+            let away = dir.join("state.log.away");
+            let existed = path.exists();
+            if fail {
+                if existed {
+                    std::fs::rename(&path, &away).unwrap();
+                }
+                std::fs::create_dir(&path).unwrap();
+            }
             let r = st.apply(u(c, "user") as u32, command_of(c)).await;
+            if fail {
+                std::fs::remove_dir(&path).unwrap();
+                if existed {
+                    std::fs::rename(&away, &path).unwrap();
+                }
+            }
             results.push(r.is_ok());
             bounds.push(std::fs::metadata(&path).map(|m| m.len() as usize).unwrap_or(0));
         }
